@@ -291,9 +291,12 @@ class Impl:
             _, g, key, v = op
             G[g].initializers.setdefault(key, V[v])
         elif k == "X_InitIOr":
-            _, g, vs = op
-            d = G[g].initializers
-            d |= {V[x].name: V[x] for x in vs}
+            g, vs = op[1], op[2]
+            if len(op) > 3 and op[3].get("attr"):
+                G[g].initializers |= {V[x].name: V[x] for x in vs}      # the form users write (property without setter)
+            else:
+                d = G[g].initializers
+                d |= {V[x].name: V[x] for x in vs}
         elif k == "X_GSort":
             G[op[1]].sort()
         elif k == "X_ConvReplaceAllUses":
@@ -1200,7 +1203,7 @@ def gen_oracle_only(rng, length: int) -> list[dict]:
                 v = rng.choice(named_ok)
                 op = ["X_InitSetDefault", gi, im.vals[v].name, v]
             elif c == "ior" and named_ok:
-                op = ["X_InitIOr", gi, rng.sample(named_ok, 1)]
+                op = ["X_InitIOr", gi, rng.sample(named_ok, min(len(named_ok), rng.choice([1, 2]))), {"attr": rng.random() < 0.5}]
             elif c == "gsort":
                 op = ["X_GSort", gi]
             elif c == "conv_rau":
